@@ -1,1 +1,125 @@
 //! Hooks into `replication_fetcher` (child module: sees its private items).
+//!
+//! Pass-through wrapper around the crate-private `ReplicationFetcher` for the external
+//! correspondence harness. Nothing here changes behaviour.
+
+use super::*;
+
+/// `MAX_PARALLEL_FETCH` as compiled.
+pub const MAX_PARALLEL_FETCH_VALUE: usize = MAX_PARALLEL_FETCH;
+/// `FETCH_TIMEOUT` as compiled.
+pub const FETCH_TIMEOUT_VALUE: Duration = FETCH_TIMEOUT;
+/// `PENDING_TIMEOUT` as compiled.
+pub const PENDING_TIMEOUT_VALUE: Duration = PENDING_TIMEOUT;
+
+/// One `to_be_fetched` entry: key, type, holder, deadline.
+pub type PendingEntry = (RecordKey, RecordType, PeerId, Instant);
+/// One `on_going_fetches` entry: key, type, holder, deadline.
+pub type OnGoingEntry = (RecordKey, RecordType, PeerId, Instant);
+
+/// Public handle around the crate-private `ReplicationFetcher`.
+#[derive(Debug)]
+pub struct VerifFetcher(ReplicationFetcher);
+
+impl VerifFetcher {
+    /// `ReplicationFetcher::new`
+    pub fn new(self_peer_id: PeerId, event_sender: mpsc::Sender<NetworkEvent>) -> Self {
+        Self(ReplicationFetcher::new(self_peer_id, event_sender))
+    }
+
+    /// `ReplicationFetcher::set_replication_distance_range`
+    pub fn set_replication_distance_range(&mut self, distance_range: U256) {
+        self.0.set_replication_distance_range(distance_range)
+    }
+
+    /// `ReplicationFetcher::add_keys`
+    pub fn add_keys(
+        &mut self,
+        holder: PeerId,
+        incoming_keys: Vec<(NetworkAddress, RecordType)>,
+        locally_stored_keys: &HashMap<RecordKey, (NetworkAddress, RecordType)>,
+    ) -> Vec<(PeerId, RecordKey)> {
+        self.0.add_keys(holder, incoming_keys, locally_stored_keys)
+    }
+
+    /// `ReplicationFetcher::set_farthest_on_full`
+    pub fn set_farthest_on_full(&mut self, farthest_in: Option<RecordKey>) {
+        self.0.set_farthest_on_full(farthest_in)
+    }
+
+    /// `ReplicationFetcher::notify_about_new_put`
+    pub fn notify_about_new_put(
+        &mut self,
+        new_put: RecordKey,
+        record_type: RecordType,
+    ) -> Vec<(PeerId, RecordKey)> {
+        self.0.notify_about_new_put(new_put, record_type)
+    }
+
+    /// `ReplicationFetcher::notify_fetch_early_completed`
+    pub fn notify_fetch_early_completed(
+        &mut self,
+        key_in: RecordKey,
+        record_type: RecordType,
+    ) -> Vec<(PeerId, RecordKey)> {
+        self.0.notify_fetch_early_completed(key_in, record_type)
+    }
+
+    /// `ReplicationFetcher::next_keys_to_fetch`
+    pub fn next_keys_to_fetch(&mut self) -> Vec<(PeerId, RecordKey)> {
+        self.0.next_keys_to_fetch()
+    }
+
+    /// Read-only copy of `to_be_fetched`, sorted by (key bytes, holder bytes, type debug text).
+    pub fn to_be_fetched(&self) -> Vec<PendingEntry> {
+        let mut v: Vec<PendingEntry> = self
+            .0
+            .to_be_fetched
+            .iter()
+            .map(|((k, t, h), d)| (k.clone(), t.clone(), *h, *d))
+            .collect();
+        v.sort_by_key(|(k, t, h, _)| (k.to_vec(), h.to_bytes(), format!("{t:?}")));
+        v
+    }
+
+    /// Read-only copy of `on_going_fetches`, sorted by (key bytes, type debug text).
+    pub fn on_going_fetches(&self) -> Vec<OnGoingEntry> {
+        let mut v: Vec<OnGoingEntry> = self
+            .0
+            .on_going_fetches
+            .iter()
+            .map(|((k, t), (h, d))| (k.clone(), t.clone(), *h, *d))
+            .collect();
+        v.sort_by_key(|(k, t, _, _)| (k.to_vec(), format!("{t:?}")));
+        v
+    }
+
+    /// Current `distance_range`.
+    pub fn distance_range(&self) -> Option<U256> {
+        self.0.distance_range
+    }
+
+    /// Current `farthest_acceptable_distance`.
+    pub fn farthest_acceptable_distance(&self) -> Option<Distance> {
+        self.0.farthest_acceptable_distance
+    }
+
+    /// Simulate `d` of time passing: subtract `d` from every stored deadline.
+    /// Returns false (and leaves that deadline unchanged) if an `Instant` cannot be moved that far back.
+    pub fn age(&mut self, d: Duration) -> bool {
+        let mut ok = true;
+        for deadline in self.0.to_be_fetched.values_mut() {
+            match deadline.checked_sub(d) {
+                Some(x) => *deadline = x,
+                None => ok = false,
+            }
+        }
+        for (_holder, deadline) in self.0.on_going_fetches.values_mut() {
+            match deadline.checked_sub(d) {
+                Some(x) => *deadline = x,
+                None => ok = false,
+            }
+        }
+        ok
+    }
+}
